@@ -34,6 +34,24 @@ def build(chk):
         (runner, victim, injected, phase) = TS.gen_adversarial(rng)
         TC.drain(runner)
         recs.append(TS.finish(runner, 'adversarial', dict(victim=victim, phase=phase)))
+    # every peer message about every class of the victim's own transfers (queued, in flight, awaiting the
+    # final ack), one per run, then drained: afterwards the queues and the idle indication must be consistent
+    import random
+    import check_C17
+    for (sidx, (phase, inflight)) in enumerate([('established', (10, 3, 2)), ('terminating', (10, 3, 2))]):
+        for victim in ('A', 'B'):
+            for fidx in range(200):
+                if chk.quick() and (fidx + sidx) % 2 != 0:
+                    continue
+                res = check_C17.adversarial_run(chk, random.Random(5000 * sidx + fidx), phase=phase, forced=fidx,
+                                                victim=victim, inflight=inflight)
+                if not res[2]:
+                    break
+                if res[2][0][0] not in (2, 3):
+                    continue  # only acks and refusals matter for the transfer bookkeeping
+                res[0].meta['no_model'] = (fidx % 3 != 0)
+                res[0].kind = 'directed-xfer-msg'
+                recs.append(res[0])
     # extreme values reaching a signal: XFER_ACK with length 2^64-1, refusal of a queued transfer
     runner = TC.Runner()
     runner.apply(('start', 'A'))
